@@ -3,6 +3,7 @@ package main
 // Loading /repo (current working tree), contracts, spec prelude; running the VCs of a function.
 
 import (
+	"strconv"
 	"fmt"
 	"go/token"
 	"go/types"
@@ -682,6 +683,9 @@ func (P *Program) genVC(con *Contract) (*FuncResult, *VC) {
 
 // discharge runs all obligations (in parallel) and classifies them.
 func (P *Program) discharge(obls []*Obligation, secs int, thorough bool, par int) {
+	if v, err := strconv.Atoi(os.Getenv("GOVC_PAR")); err == nil && v > 0 && v < par {
+		par = v // several checks side by side (seed runs): fewer queries in flight per check
+	}
 	sem := make(chan struct{}, par)
 	var wg sync.WaitGroup
 	for _, o := range obls {
